@@ -177,7 +177,7 @@ CLAIMED.update({
             TECH + "; relational (two-input) execution", "4/C22"),
     "C23": ("infer (flip/placement) + rescale prefix + reallocate_unphased with symbolic phases in [0,1] on 4 layouts (incl. a leaf edge shared by two blocks) x both "
             "match_segregating_sites: phased edges/spans unchanged, each block's edges get exactly its singletons in total, "
-            "the placed edge gets the share >= 1/2.  Found defect F7 (repaired: fix commit 8c402f4).",
+            "the placed edge gets the share >= 1/2.  Found defects F7 (repaired: 8c402f4) and F15 (undefined phase, repaired: 434785f); one singleton may have an undefined (NaN) phase.",
             "Fitted phases not NaN; rest of rescale is C25.", TECH, "4/C23"),
     "C24": ("_count_mutations (plain / frequency-weighted / explicit sample set), the public count_mutations(ts) wrapper "
             "and _block_singletons on 14 skeletons (incl. multiply-hit / monomorphic sites, a mutation above a local root) with "
